@@ -324,7 +324,7 @@ fn compare(format: Format, i: usize, rec: &Rec, got: &GotRec) -> Option<(String,
                 return mism("references", rec.transfac_refs().to_string(), format!("{:?}", got.refs));
             }
             // to_counts(): integer-valued cells give the same table as u32, others give None
-            let all_int = rec.cells.iter().all(|c| !c.contains('.'));
+            let all_int = rec.cells.iter().all(|c| !c.is_empty() && c.bytes().all(|b| b.is_ascii_digit()));
             let want_counts = if all_int { Some(expected_u32(format, rec)) } else { None };
             let have = got.counts.clone().unwrap_or(None);
             let frac_present = rec.cells.iter().any(|c| {
